@@ -47,6 +47,7 @@ fn judge(ctx: &mut Ctx, ic: &IssuedCase, pres: &str, policy: Option<&Validation>
 }
 
 pub fn run_case(ctx: &mut Ctx, case: &Value, c09: bool) {
+    crate::real::set_current(case);
     ctx.report.evaluations += 1;
     let ic = match issue_any(ctx, case) {
         Some(ic) => ic,
